@@ -116,8 +116,8 @@ func moqCatalogJSON(s *Src) ([]byte, int, string) {
 		return []byte(js), 0, "catalog-raw"
 	}
 	nTracks := []int{1, 1, 1, 2, 2, 2, 3}[s.Intn(7)]
-	if s.Odd(10) {
-		nTracks = []int{0, 8, 50, 51, 300}[s.Intn(5)]
+	if s.Odd(6) {
+		nTracks = []int{0, 0, 8, 50, 51, 300}[s.Intn(6)]
 	}
 	cat := catalog.Catalog{Version: int(int64(s.SmallOrEvilUint(2, 10)))}
 	for i := 0; i < nTracks; i++ {
